@@ -107,14 +107,15 @@ KEYWORDS = set('A B C D E H L I R AF BC DE HL SP IX IY IXH IXL IYH IYL NZ Z NC P
                'JP JR LD LDD LDDR LDI LDIR NEG NOP OR OTDR OTIR OUT OUTD OUTI POP PUSH RES RET RETI RETN RL RLA RLC RLCA RLD RR RRA RRC RRCA RRD RST SBC SCF SET SLA SLL SRA SRL SUB XOR DEFB DEFM DEFS DEFW'.split())
 
 INSTR = [('XOR A', 1), ('NOP', 1), ('LD A,{n}', 2), ('LD B,{n}', 2), ('LD BC,{nn}', 3), ('LD HL,{nn}', 3), ('INC A', 1), ('RET', 1), ('LD (IX+{d}),{n}', 4), ('CP {n}', 2), ('DEFB {n},{n}', 2),
-         ('DEFW {nn}', 2), ('DEFS 3', 3), ('DEFM "ab"', 2), ('LD ({nn}),A', 3), ('OUT ({n}),A', 2)]
+         ('DEFW {nn}', 2), ('DEFS 3', 3), ('DEFM "ab"', 2), ('LD ({nn}),A', 3), ('OUT ({n}),A', 2),
+         ('DEFM "Dir\\\\","Games"', 9), ('DEFB "a\\"B",1', 4), ('DEFM "x;Y"', 3), ('DEFM "Say \\"Hi\\"","Ok"', 10), ('LD A,"q"', 2), ('DEFB 1,"\\\\","Zz"', 4), ('DEFS 2,"a"', 2)]
 REF = [('JP {ref}', 3), ('CALL {ref}', 3), ('LD HL,{ref}', 3), ('LD DE,{ref}', 3), ('JR {ref}', 2), ('DJNZ {ref}', 2), ('DEFW {ref}', 2), ('LD BC,({ref})', 4)]
 SUBS = ['NOP', 'XOR A', 'LD A,{n}', 'LD BC,{nn}', 'INC A', 'LD (IX+{d}),{n}', 'LD A,B']
 
 def fill(t, rnd, refs):
     return t.format(n=rnd.choice((0, 1, 33, 127, 255)), nn=rnd.choice((0, 1, 255, 256, 32767, 65535)), d=rnd.choice((0, 1, 127)), ref=rnd.choice(refs) if refs else 0)
 
-def gen_skool(rnd, label_targets=True):
+def gen_skool(rnd, label_targets=True, want_if=False):
     start = rnd.choice((32768, 40000, 50000))
     n = rnd.randrange(3, 9)
     ops = []
@@ -151,9 +152,24 @@ def gen_skool(rnd, label_targets=True):
         if (label_targets and addr in targets) or rnd.random() < 0.1:
             lines.append('@label=LAB%d' % k)
         r = rnd.random()
+        if want_if and k > quiet:
+            r = 0
         if r < 0.35 and k > quiet:
             d = rnd.choice(('isub', 'ssub', 'rsub', 'ofix', 'bfix', 'rfix'))
-            form = rnd.randrange(7)
+            form = rnd.randrange(8)
+            forced = None
+            if want_if:
+                form, forced, want_if = 7, want_if, False
+            if form == 7:
+                # a directive chosen by @if on the mode fields both tools must see alike
+                cond = rnd.choice(('{fix}', '{asm}==3', '{asm}>1', '{fix}>1', '{asm}', '{fix}==0', '{asm}<2'))
+                if forced == 'fix':
+                    cond = rnd.choice(('{fix}', '{fix}==0', '{fix}>0', '{fix}==1'))
+                elif forced == 'asm':
+                    cond = rnd.choice(('{asm}==3', '{asm}>2', '{asm}<3', '{asm}==1', '{asm}==2'))
+                body = '%s=%s' % (d, fill(rnd.choice(SUBS), rnd, near))
+                lines.append('@if(%s)(%s)' % (cond, body) if ',' not in body else '@if(%s)||%s||' % (cond, body))
+                form = 99
             if form in (3, 4):
                 quiet = k + 3
             s1 = fill(rnd.choice(SUBS), rnd, near)
@@ -171,7 +187,7 @@ def gen_skool(rnd, label_targets=True):
             elif form == 5:
                 lines.append('@%s=%s' % (d, s1))
                 lines.append('@%s=%s' % (d, fill(rnd.choice(SUBS), rnd, near)))
-            elif k + 1 < len(ops) and ops[k + 1][0] not in targets:
+            elif form == 6 and k + 1 < len(ops) and ops[k + 1][0] not in targets:
                 lines.append('@%s=!%d' % (d, ops[k + 1][0]))
                 removed.add(ops[k + 1][0])
         ctl = 'c' if k == 0 else ' '
@@ -185,15 +201,17 @@ def run(ctx, repo):
     B = Both(repo)
     where = 'skoolkit/skoolparser.py, skoolkit/skoolasm.py, skoolkit/skool2bin.py'
     seen = set()
-    MODES = [(0, 0), (1, 0), (2, 0), (3, 0), (1, 1), (1, 2), (3, 3)]
+    MODES = [(0, 0), (1, 0), (2, 0), (3, 0), (1, 1), (1, 2), (3, 3), (1, 3), (2, 3), (3, 0), (2, 1)]
     for k in range(n):
-        lines, start = gen_skool(rnd)
         asm_mode, fix_mode = MODES[k % len(MODES)]
+        lines, start = gen_skool(rnd, want_if='fix' if (asm_mode, fix_mode) == (3, 0) else 'asm' if fix_mode == 3 and asm_mode < 3 else False)
         # skool2asm is always at least in @isub mode; skool2bin mode 0 is compared with asm mode 1 only when no isub directive is present
         if asm_mode == 0:
             if any(l.startswith('@isub') for l in lines):
                 asm_mode = 1
-        # the normalisation skool2asm.main and BinWriter.__init__ both apply (compared by C04.2): @rfix implies @rsub, @rsub implies @ofix
+        # the normalisation skool2asm.main and BinWriter.__init__ both apply (compared by C04.2): @rfix implies @rsub, @rsub implies @ofix;
+        # BinWriter gets the modes as the command line gives them (it normalises them itself), the ASM side the normalised ones
+        raw_modes = (asm_mode, fix_mode)
         if fix_mode > 2:
             asm_mode = 3
         elif asm_mode > 2:
@@ -203,7 +221,7 @@ def run(ctx, repo):
         try:
             asm = B.skool2asm(lines, max(asm_mode, 1), fix_mode, **opt)
             base_a, img_a = B.assemble_text(asm)
-            base_b, img_b = B.skool2bin_mode(lines, asm_mode, fix_mode)
+            base_b, img_b = B.skool2bin_mode(lines, *raw_modes)
         except NotLiteral as e:
             ctx.limit('pipeline', 'not foldable (%s): %s' % (name, e))
             continue
